@@ -166,6 +166,10 @@ enum Work {
     /// the same value decomposed twice in one circuit (widths n1 then n2, honest hints): the
     /// claimed n2-bit digits are public
     BitsTwice(usize, usize, u64, Vec<u64>),
+    /// the decomposed value is a builder CONSTANT (source 0: `define_const`, 1: sum of two
+    /// constants, 2: product of a constant with the constant one): n, x coefficients, source,
+    /// claimed digits (public)
+    BitsConst(usize, [u64; 4], u8, Vec<u64>),
     /// coefficient decomposition over Goldilocks D=2 / KoalaBear D=5 / BabyBear D=4+recompose
     CoeffX(coeffx::CoeffX),
 }
@@ -383,8 +387,84 @@ fn coeffx_cases(thorough: bool, out: &mut Vec<Case>) {
     }
 }
 
+/// decompose_to_bits of a value the builder knows to be a constant: whatever shortcut the
+/// builder takes for constants, the claim "these are its n bits" must stay rejected for a
+/// constant that does not fit n bits (or has higher coefficients) and accepted for one that fits.
+fn bits_const_cases(out: &mut Vec<Case>) {
+    let vals: [(usize, [u64; 4]); 12] = [
+        (2, [1, 0, 0, 0]),
+        (2, [3, 0, 0, 0]),
+        (2, [5, 0, 0, 0]),
+        (3, [13, 0, 0, 0]),
+        (8, [200, 0, 0, 0]),
+        (8, [300, 0, 0, 0]),
+        (31, [300, 0, 0, 0]),
+        (30, [1 << 30, 0, 0, 0]),
+        (31, [3, 7, 0, 0]),
+        (8, [5, 0, 0, 1]),
+        (33, [5, 2, 0, 0]),
+        (33, [5, 6, 0, 0]),
+    ];
+    for (n, x) in vals {
+        // fits: every coefficient beyond the limbs covered is zero and each covered limb fits
+        let mut fits = true;
+        for (l, c) in x.iter().enumerate() {
+            let lo = 31 * l;
+            let width = n.saturating_sub(lo).min(31);
+            if width == 0 {
+                fits &= *c == 0;
+            } else if width < 31 {
+                fits &= *c >> width == 0;
+            }
+        }
+        let low: Vec<u64> = (0..n).map(|k| (x[k / 31] >> (k % 31)) & 1).collect();
+        for src in 0..3u8 {
+            out.push(Case {
+                site: format!("decompose_to_bits(n={n}) of a constant (source {src})/babybear-d4"),
+                class: if fits { "canonical" } else { "low_bits_of_a_constant_that_does_not_fit" },
+                detail: format!("x={x:?} digits=low {n} bits"),
+                canonical: fits,
+                work: Work::BitsConst(n, x, src, low.clone()),
+            });
+        }
+    }
+}
+
 fn run_case(w: &Work) -> Outcome {
     match w {
+        Work::BitsConst(n, xv, src, digits) => {
+            let mut b = CircuitBuilder::<BB4>::new();
+            let xc = ext_from::<BB, BB4>(&xv.iter().map(|v| BB::from_u64(*v)).collect::<Vec<_>>());
+            let x = match src {
+                0 => b.define_const(xc),
+                1 => {
+                    let one = b.define_const(BB4::ONE);
+                    let r = b.define_const(xc - BB4::ONE);
+                    b.add(r, one)
+                }
+                _ => {
+                    let one = b.define_const(BB4::ONE);
+                    let r = b.define_const(xc);
+                    b.mul(r, one)
+                }
+            };
+            let bits = match b.decompose_to_bits::<BB>(x, *n) {
+                Ok(v) => v,
+                Err(e) => return Outcome::RunRejected(format!("builder: {e:?}")),
+            };
+            let k = b.define_const(BB4::from_u64(K));
+            let ys: Vec<ExprId> = (0..*n).map(|_| b.public_input()).collect();
+            for i in 0..*n {
+                let m = b.mul(bits[i], k);
+                b.connect(m, ys[i]);
+            }
+            let c = match b.build() {
+                Ok(c) => c,
+                Err(e) => return Outcome::RunRejected(format!("build: {e:?}")),
+            };
+            let pubs: Vec<BB4> = digits.iter().map(|d| BB4::from_u64(*d) * BB4::from_u64(K)).collect();
+            prove_bb::<BB4, 4>(&c, &pubs)
+        }
         Work::CoeffX(c) => coeffx::run(c),
         Work::BitsTwice(n1, n2, xv, digits) => {
             let mut b = CircuitBuilder::<BB>::new();
@@ -593,6 +673,7 @@ fn main() {
         bits_multilimb_cases(n, x, &mut cases);
     }
     bits_twice_cases(&mut cases);
+    bits_const_cases(&mut cases);
     for mode in ["alu", "npo", "npo_coeff"] {
         coeff_cases(mode, &mut cases);
     }
